@@ -25,13 +25,14 @@ type Meta struct {
 	Class      string   `json:"class,omitempty"`       // scenario class within the profile
 	Dense      bool     `json:"dense,omitempty"`       // preemption between plain statements everywhere in the code under test
 	DenseFuncs []string `json:"dense_funcs,omitempty"` // functions always included when Dense
+	StarveRole string   `json:"starve_role,omitempty"` // strategy starve: starve the tasks of this role
 	Full       bool     `json:"-"`                     // keep the full choice trace (set when a violation is re-run for its report)
 }
 
 func (m *Meta) GetMeta() *Meta { return m }
 
 func (m *Meta) Options() simrt.Options {
-	return simrt.Options{Seed: m.Sched, Strategy: m.Strategy, TimerSlack: time.Duration(m.SlackMs) * time.Millisecond, FullTrace: m.Full, Dense: m.Dense, DenseFuncs: m.DenseFuncs}
+	return simrt.Options{Seed: m.Sched, Strategy: m.Strategy, TimerSlack: time.Duration(m.SlackMs) * time.Millisecond, FullTrace: m.Full, Dense: m.Dense, DenseFuncs: m.DenseFuncs, StarveRole: m.StarveRole}
 }
 
 // GenMeta draws strategy and knobs (swarm style).
